@@ -631,7 +631,7 @@ def run_simplex_scenario(spec):
 
 # ----------------------------------------------------------------------------- Bayesian / TPE / Forest (GFO.Model.SmboBackend)
 
-SMBO3 = ("BayesianOptimizer", "TreeStructuredParzenEstimators", "ForestOptimizer")
+SMBO3 = ("BayesianOptimizer", "TreeStructuredParzenEstimators", "ForestOptimizer", "LipschitzOptimizer")
 
 
 def run_smbo_scenario(spec):
@@ -665,7 +665,22 @@ def run_smbo_scenario(spec):
             tape.add("h", " ".join([str(len(g))] + ["1" if ok else "0" for _, ok in g]))
             return out_
         opt._all_possible_pos = all_possible_pos
-        orig_tr = opt._training
+        is_lip = spec["opt"] == "LipschitzOptimizer"
+        if is_lip:
+            import gradient_free_optimizers.optimizers.global_opt.lipschitz_optimization as lipm
+            holder["lipm"] = lipm
+            holder["orig_calc"] = lipm.LipschitzFunction.calculate
+
+            def calculate(self_, X, Y, sb):
+                out_ = holder["orig_calc"](self_, X, Y, sb)
+                flat = np.ma.filled(out_, np.inf).astype(float).ravel() if hasattr(out_, "mask") else np.asarray(out_, dtype=float).ravel()
+                tape.add("v", " ".join([str(len(flat))] + [tok_f(x) for x in flat]))
+                perm = list(out_.argsort()[::-1])
+                perm = [int(np.asarray(i).ravel()[0]) for i in perm]
+                tape.add("o", " ".join([str(len(perm))] + [str(i) for i in perm]))
+                return out_
+            lipm.LipschitzFunction.calculate = calculate
+        orig_tr = getattr(opt, "_training", None)
 
         def training():
             try:
@@ -675,7 +690,8 @@ def run_smbo_scenario(spec):
                 raise
             tape.add("i", "1")
             return r_
-        opt._training = training
+        if not is_lip:
+            opt._training = training
         orig_samp = opt._sampling
 
         def sampling(all_pos_comb):
@@ -688,7 +704,7 @@ def run_smbo_scenario(spec):
                 tape.add("g", " ".join([str(len(idx))] + [str(i) for i in idx]))
             return out_
         opt._sampling = sampling
-        orig_ei = opt._expected_improvement
+        orig_ei = getattr(opt, "_expected_improvement", None)
 
         def expected_improvement():
             out_ = orig_ei()
@@ -697,13 +713,18 @@ def run_smbo_scenario(spec):
             perm = list(np.asarray(out_).argsort()[::-1])
             tape.add("o", " ".join([str(len(perm))] + [str(int(i)) for i in perm]))
             return out_
-        opt._expected_improvement = expected_improvement
-    with module_patches(tape):
-        out = scen.run_scenario(spec, with_model=False, on_built=on_built)
+        if not is_lip:
+            opt._expected_improvement = expected_improvement
+    try:
+        with module_patches(tape):
+            out = scen.run_scenario(spec, with_model=False, on_built=on_built)
+    finally:
+        if "lipm" in holder:
+            holder["lipm"].LipschitzFunction.calculate = holder["orig_calc"]
     real = out["real"]
     opt, rec, records, space = real["opt"], real["rec"], real["records"], real["space"]
     il, warm = holder["init_l"], holder["warm"]
-    bnew = (f"bnew {opt.init.n_inits} {1 if opt.replacement else 0} {1 if spec['opt'] == 'ForestOptimizer' else 0} "
+    bnew = (f"bnew {opt.init.n_inits} {1 if opt.replacement else 0} {1 if spec['opt'] == 'ForestOptimizer' else 0} {1 if spec['opt'] == 'LipschitzOptimizer' else 0} "
             f"{len(il)} " + " ".join(" ".join(str(x) for x in p) for p in il) + f" {len(warm)} " +
             " ".join(" ".join(str(x) for x in p) + " " + tok_f(y) for p, y in warm))
     bnew = " ".join(bnew.split())
